@@ -38,6 +38,14 @@ structure World where
   /-- `time.Parse(time.RFC3339, ·)` as an instant (nanoseconds); the zero `time.Time` is `zeroTime` -/
   parseTime : Str → Option Int := fun _ => none
 
+/-- The URL a reference leads to: `source.ResolveReference(ref)` under `source != nil`, the
+    reference itself otherwise (`FetchUnknown` does not call `ResolveReference` without a source,
+    so `resolve none` is never consulted). -/
+def World.target (w : World) (source : Option U) (ref : U) : U :=
+  match source with
+  | none => ref
+  | some _ => w.resolve source ref
+
 /-- The zero `time.Time` (year 1): before every parsed instant. -/
 def zeroTime : Int := -62135596800000000000
 
@@ -65,7 +73,7 @@ def fetchUnknown (w : World) (input : JVal) (source : Option U) : Except Unit (O
     | .str s =>
       match w.parse s with
       | none => .error ()
-      | some ref => match w.fetch (w.resolve source ref).str with
+      | some ref => match w.fetch (w.target source ref).str with
         | some (o, src) => .ok (o, some src)
         | none => .error ()
     | .obj kvs => .ok (kvs, source)
